@@ -422,7 +422,8 @@ func materialize(l layoutDesc) (dirs []string, view []any) {
 				g := f
 				g.Kind = "valid"
 				sp := templateSpec(g)
-				sp.ContainerEdits.Hooks = append(sp.ContainerEdits.Hooks, &specs.Hook{HookName: "poststop", Path: "/bin/t", Timeout: intp(-1)})
+				// (in a device: the schema files say nothing about the Spec-level containerEdits)
+				sp.Devices[0].ContainerEdits.Hooks = append(sp.Devices[0].ContainerEdits.Hooks, &specs.Hook{HookName: "poststop", Path: "/bin/t", Timeout: intp(-1)})
 				writeSpecFile(path, sp)
 			case "noperm":
 				g := f
